@@ -1,5 +1,6 @@
 import ElfiVerif.Drive.Util
 import ElfiVerif.Model.Npy
+import ElfiVerif.Model.BufIO
 
 namespace ElfiVerif.Drive.C06
 open Lean ElfiVerif.Drive ElfiVerif.Npy
@@ -58,6 +59,17 @@ def runH : H := fun j => do
       go s1 d' rest (acc.push o)
   pure (Json.arr (go { b := b } Disk.empty ops #[]))
 
-def handlers : List (String × H) := [("C06.run", runH)]
+/-- {"kinds":"wsfdn…"} (w = buffered write, s = seek, f = flush/close, d = write that bypasses the buffer,
+    n = spontaneous spill) → {"disciplined": bool}: the hypothesis of `buffered_kill_is_prefix`, evaluated
+    with the very definition the theorem uses, on the event stream the real store produced -/
+def ioH : H := fun j => do
+  let evs := (← getStr j "kinds").toList.filterMap (fun ch =>
+    if ch = 'w' then some (ElfiVerif.BufIO.IoEv.write .sync) else if ch = 's' then some .seek
+    else if ch = 'f' then some .flush else if ch = 'd' then some (.direct .sync)
+    else if ch = 'n' then some (.drain 1) else none)
+  pure (Json.mkObj [("disciplined", Json.bool (ElfiVerif.BufIO.disciplined false evs)),
+                    ("steps", Json.num (JsonNumber.fromNat (ElfiVerif.BufIO.stepsOfEvs evs).length))])
+
+def handlers : List (String × H) := [("C06.run", runH), ("C06.io", ioH)]
 
 end ElfiVerif.Drive.C06
